@@ -329,6 +329,11 @@ class LRI(dict):
     def __ne__(self, other):
         return not (self == other)
 
+    def __ior__(self, other):
+        # dict.__ior__ would bypass __setitem__ (size limit, linked list)
+        self.update(other)
+        return self
+
     def __repr__(self):
         cn = self.__class__.__name__
         val_map = super().__repr__()
